@@ -112,7 +112,7 @@ Definition c_encode (na nr : nat) (c : cstate) : list N :=
   ++ flat_map (fun r => [enc_rpc (rp c r); N.of_nat (rcnt c r)]) (seq 0 nr)
   ++ map (fun a => N.of_nat (acnt c a)) (seq 0 na).
 
-Record cxres := mkCX { cx_finals : list cstate; cx_seen : list (list N); cx_cov : list N; cx_out : bool }.
+Record cxres := mkCX { cx_finals : list cstate; cx_seen : trie; cx_cov : list N; cx_out : bool }.
 Fixpoint c_explore (checked : bool) (na nr fuel : nat) (todo : list cstate) (r : cxres) : cxres :=
   match fuel with
   | O => match todo with [] => r | _ => mkCX (cx_finals r) (cx_seen r) (cx_cov r) true end
@@ -121,11 +121,11 @@ Fixpoint c_explore (checked : bool) (na nr fuel : nat) (todo : list cstate) (r :
       | [] => r
       | c :: rest =>
           let e := c_encode na nr c in
-          if seen_in e (cx_seen r) then c_explore checked na nr f rest r
+          if tmem e (cx_seen r) then c_explore checked na nr f rest r
           else
             let sc := c_succs checked na nr c in
             c_explore checked na nr f (map fst sc ++ rest)
-              (mkCX (match sc with [] => c :: cx_finals r | _ => cx_finals r end) (e :: cx_seen r)
+              (mkCX (match sc with [] => c :: cx_finals r | _ => cx_finals r end) (tadd e (cx_seen r))
                     (fold_left (fun cv p => ins_cov (snd p) cv) sc (cx_cov r)) (cx_out r))
       end
   end.
